@@ -45,6 +45,11 @@ def run(ctx: Ctx):
     from .common import generic_lints
 
     generic_lints(ctx)
+    # no subtotal row / column ever exists on an MR / CA dimension: the base blocks broadcast ONE item's base onto an inserted
+    # vector, a summed row of overlapping items divided by it is no proportion (1.3)
+    from .common import subtotal_free_types
+
+    subtotal_free_types(ctx)
     from .common import subtotal_terms_once
 
     subtotal_terms_once(ctx)
